@@ -10,7 +10,9 @@ import itertools
 
 # conditions: variables (never folded) and constants (folded at -O1+)
 CONDS = {'vt': 'zt%', 'vf': 'zf%', 'c1': '1', 'c0': '0', 'cmp': 'zv% = 2',
-         'v2': 'zv%', 'fl': 'zh!', 'c5': '5'}          # true values other than -1 (2, 0.5, 5)
+         'v2': 'zv%', 'fl': 'zh!', 'c5': '5',          # true values other than -1 (2, 0.5, 5)
+         # conditions whose evaluation is observable: a FUNCTION that prints, a run-time error, the first use of an implicit array
+         'fn': 'zprobe%(1)', 'fn0': 'zprobe%(0)', 'trap': '10 \\ zf%', 'imp': 'zimp{n}(2) = 0'}
 
 # templates: (name, text with {c} condition, {X}/{Y}/{Z} body slots, {n} unique number)
 TEMPLATES = [
@@ -63,7 +65,7 @@ NOCODE = {'rem': 'REM nothing here\n', 'comment': "' nothing here\n", 'const': '
 
 
 def _fill(tmpl, n, c, slots):
-    t = tmpl.replace('{c}', c).replace('{n}', str(n))
+    t = tmpl.replace('{c}', c.replace('{n}', str(n))).replace('{n}', str(n))
     for name, val in zip(('{X}', '{Y}', '{Z}'), slots):
         t = t.replace(name, val)
     t = t.replace('{X}', '').replace('{Y}', '').replace('{Z}', '')
@@ -94,17 +96,18 @@ def constructs():
 
 
 PLACEMENTS = ('gosub', 'sub', 'function')
+PROBE = 'FUNCTION zprobe% (n%)\nPRINT "probe"; n%\nzprobe% = n%\nEND FUNCTION\n'
 
 
 def program(mk, placement):
     head = ['DIM SHARED zt%, zf%, zv%, zq%, zs$, zh!', 'zt% = -1', 'zf% = 0', 'zv% = 2', 'zs$ = "b"', 'zh! = 0.5', 'PRINT "m0"']
     main = mk(1) + 'PRINT "m1"\nFOR zk% = 1 TO 3\n' + mk(2) + 'NEXT\nPRINT "m2"\n'
     if placement == 'gosub':
-        rest = 'GOSUB zg\nPRINT "m3"\nGOSUB zg\nPRINT "m4"\nEND\nzg:\n' + mk(3) + 'RETURN\n'
+        rest = 'GOSUB zg\nPRINT "m3"\nGOSUB zg\nPRINT "m4"\nEND\nzg:\n' + mk(3) + 'RETURN\n' + PROBE
     elif placement == 'sub':
-        rest = 'zsb\nPRINT "m3"\nzsb\nPRINT "m4"\nEND\nSUB zsb\n' + mk(3) + 'PRINT "s"\nEND SUB\n'
+        rest = 'zsb\nPRINT "m3"\nzsb\nPRINT "m4"\nEND\nSUB zsb\n' + mk(3) + 'PRINT "s"\nEND SUB\n' + PROBE
     else:
-        rest = 'PRINT zfn%\nPRINT "m3"; zfn% + zfn%\nEND\nFUNCTION zfn%\n' + mk(3) + 'zfn% = 7\nEND FUNCTION\n'
+        rest = 'PRINT zfn%\nPRINT "m3"; zfn% + zfn%\nEND\nFUNCTION zfn%\n' + mk(3) + 'zfn% = 7\nEND FUNCTION\n' + PROBE
     return '\n'.join(head) + '\n' + main + rest
 
 
@@ -134,6 +137,9 @@ def sample(n, seed, always_empty=True):
             if set(fill) <= {'0'} and name not in seen and ck in ('vt', 'vf', '-', 'c1'):  # (other conditions come from the random part)
                 seen.add(name)
                 must.append((tag, text))
+            elif set(fill) <= {'0'} and ck in ('fn', 'trap') and name in ('if', 'if-elseif', 'if-in-for', 'if-in-if', 'select-in-if',
+                                                                           'do-in-if', 'if-goto-next', 'for-exit-if'):
+                must.append((tag, text))      # empty branches under a condition whose evaluation is observable
     rest = [p for p in allp if p not in must]
     r.shuffle(rest)
     return (must + rest)[:max(n, len(must))]
